@@ -31,7 +31,7 @@ ASSUMPTIONS = ["A-reserved: the search Sid's free-text values contain no '?', ':
 BOUNDED = ['concrete family: 6 entry lists with names containing - . + (needed to exhibit the whole-string order defect on a tree that sorts whole strings: str.< on symbolic concatenations is left undecided by both solvers)',
            '2 or 3 entries per call (contents symbolic); templates of up to 5 segments in the quick tier']
 EXPLANATION = 'sorted_search on arbitrary entry lists of 2-3 symbolic entries against the segment-wise maximum oracle; get_last against an abstract finder'
-BUDGET_S = {'quick': 900, 'thorough': 3000}
+BUDGET_S = {'quick': 900, 'thorough': 1800}
 
 def cases(tier):
     spec = C.spec_templates(); cs = []
@@ -101,7 +101,9 @@ def run_sorted(it, st, T, i, nent):
     st.inputs['type'] = T; st.inputs['search'] = x.attrs['_string']; st.inputs['entries'] = list(F); st.inputs['index'] = i
     # stub subclass: star_search returns F (its contract: the matches of the search with '>' read as '*')
     stub = PClass('StubFinder', [FBG], fg)
-    stub.ns['star_search'] = PBuiltin(lambda it_, search_sids, as_sid=False, do_sort=False: list(F), 'star_search')
+    asked = []
+    def star_stub(it_, search_sids, as_sid=False, do_sort=False): asked.append((list(search_sids), as_sid)); return list(F)
+    stub.ns['star_search'] = PBuiltin(star_stub, 'star_search')
     finder = PObj(stub)
     name = 'C09:FindByGlob.sorted_search'
     try: got = it.call(V.PBound(finder, it.resolve(FBG.lookup('sorted_search'))), [[x]], {'as_sid': False})
@@ -109,6 +111,14 @@ def run_sorted(it, st, T, i, nent):
         st.oblige(f'{name}:raises-nothing', False, ('C09',), info={'exception': V.exc_name(e), 'args': repr(e.exc.attrs.get('args'))[:150]}); st.observed = {'raises': V.exc_name(e)}; return 'ok'
     got = list(got)
     st.observed = {'result': list(got)}
+    # what the star search is asked: the SAME typed search with every '>' read as '*' (a Finder that answers per type, FindInPaths, depends on the type being kept)
+    want_segs = ['*' if it.known_eq(v, '>') else v for _, v in vals]
+    ok_call = len(asked) == 1 and len(asked[0][0]) == 1 and isinstance(asked[0][0][0], PObj) and asked[0][1] is False
+    if ok_call:
+        t_, f_, s_ = C.view(asked[0][0][0])
+        ok_call = (t_ == T or it.known_eq(t_, T)) and it.known_eq(s_, it.concat(interleave('/', want_segs)))
+    st.oblige(f'{name}:star_search-is-asked-the-same-typed-search-with-greater-read-as-star', ok_call, ('C09',),
+              info={'asked': repr([(C.view(q)[0], C.view(q)[2]) for qs, _ in asked for q in qs if isinstance(q, PObj)])[:300], 'type': T})
     # oracle
     groups = []      # [(prefix_segments, [entry indices])]
     for k, e in enumerate(entries):
